@@ -16,17 +16,17 @@
     §3 zero            `ctfTRu_zero_only_from_simplify`, `ctfTRu_zero_of_simplify`, `ctf_zero_sound_partial`
     §4 composition     `ctfTRu_event_is_simplified`, `sigmaTR_uses_usable_domain`, `transportFactors_all`,
                        `ctfTRu_answer_shape`
-    §5 no other error  `ctfTRu_no_internal_error_partial` (Algorithm 2 never raises outside the crash class), its parts
-                       `simplify_no_error_outside_class` / `simplify_no_error_outside_risk`, `line2_total`,
+    §5 no other error  `ctfTRu_no_internal_error` (Algorithm 2 never raises on a validated input; no class of events
+                       excluded after repo c8cad49 + 333fa44), its parts `simplify_no_error`, `line2_total`,
                        `sigmaTRDomain_no_error`, `transportFactors_no_error`; `sigmaTR_sound`
     §6 Algorithm 3     `ctfTR_zero_only_from_simplify`, `ctfTR_answer_shape`, `ctfTR_event_shape`,
                        `ctfTR_q_good` (Q of Algorithm 2 is never Zero() and has the expected vocabulary),
-                       `ctfTR_no_internal_error_partial` (Algorithm 3 never raises outside its crash classes),
-                       `ctfTR_answers_or_fails`; the two further classes decided:
-                       `ctfTR_no_internal_error_found_partial` (`DstarOneWorld` is not needed),
-                       `ctfTR_no_internal_error_plain_partial` (`OutcomeNotCondition` is not needed for distributions over
-                       plain variables; needed for arbitrary ones: witness `a3Shared`)
-  OPEN (stated below): ctfTR_no_internal_error without `OutcomesFound` (FALSE of the current code: witness `a3Miss`).
+                       `ctfTR_no_internal_error` (Algorithm 3 never raises on a validated input; no class of queries
+                       excluded after repo f335599: `ctfTR_outcomes_found`), `ctfTR_answers_or_fails`,
+                       `ctfTR_no_internal_error_anypop_partial` (domain distributions that list counterfactual variables:
+                       `OutcomeNotCondition` needed, witness `a3Shared`), `ctfTR_simplified_binds_once`
+  OPEN (stated below): ctf_no_internal_error without `DomainsAgree` (FALSE of the current code: witness `w1`, open finding
+  crash:sigmaTR-district-split).
   The VALUE clause is in Y0/Props/C09Sound.lean: `ctfTRu_sound_partial` (Algorithm 2, proved inside the decidable class
   `ctfSoundClass`), `ctfTR_sound_partial` (Algorithm 3, proved inside the decidable class `ctfTRSoundClass`);
   OPEN there: both clauses outside their classes.
@@ -81,27 +81,60 @@ theorem validateDomains_error_class (target : MG Name) : ∀ (ds : List Domain) 
     · rename_i e he; cases h; exact validateDomain_error_class target d _ he
     · exact validateDomains_error_class target ds err h
 
-theorem validateCommon_error_class (target : MG Name) (ds : List Domain) (vs : List Var) (a b : Bool) (err : Err)
-    (h : validateCommon target ds vs a b = .error err) :
-    err = .invalidInput "ValueError" ∨ err = .invalidInput "NotImplementedError" ∨ err = .internal "KeyError" := by
+theorem ite_err_cases {c : Prop} [Decidable c] {e0 err : Err} {y : Except Err Unit}
+    (h : (if c then .error e0 else y) = .error err) : (c ∧ err = e0) ∨ (¬ c ∧ y = .error err) := by
+  split at h
+  · rename_i hc; cases h; exact Or.inl ⟨hc, rfl⟩
+  · rename_i hc; exact Or.inr ⟨hc, h⟩
+
+theorem validateCommon_error_class (target : MG Name) (ds : List Domain) (vs : List Var) (a sn b : Bool) (err : Err)
+    (h : validateCommon target ds vs a sn b = .error err) :
+    err = .invalidInput "ValueError" ∨ err = .invalidInput "NotImplementedError" ∨ err = .internal "KeyError" ∨
+      (sn = true ∧ err = .invalidInput "TypeError") := by
   unfold validateCommon vErr at h
-  repeat' split at h
-  all_goals first
-    | (cases h; exact Or.inl rfl)
-    | (cases h; exact Or.inr (Or.inl rfl))
-    | (rcases validateDomains_error_class target ds err h with h' | h'
-       · exact Or.inl h'
-       · exact Or.inr (Or.inr h'))
+  rcases ite_err_cases h with ⟨_, rfl⟩ | ⟨_, h⟩
+  · exact Or.inl rfl
+  rcases ite_err_cases h with ⟨_, rfl⟩ | ⟨_, h⟩
+  · exact Or.inr (Or.inl rfl)
+  rcases ite_err_cases h with ⟨_, rfl⟩ | ⟨_, h⟩
+  · exact Or.inl rfl
+  rcases ite_err_cases h with ⟨hsn, rfl⟩ | ⟨_, h⟩
+  · exact Or.inr (Or.inr (Or.inr ⟨hsn, rfl⟩))
+  rcases ite_err_cases h with ⟨_, rfl⟩ | ⟨_, h⟩
+  · exact Or.inl rfl
+  rcases ite_err_cases h with ⟨_, rfl⟩ | ⟨_, h⟩
+  · exact Or.inl rfl
+  rcases ite_err_cases h with ⟨_, rfl⟩ | ⟨_, h⟩
+  · exact Or.inl rfl
+  rcases ite_err_cases h with ⟨_, rfl⟩ | ⟨_, h⟩
+  · exact Or.inl rfl
+  rcases ite_err_cases h with ⟨_, rfl⟩ | ⟨_, h⟩
+  · exact Or.inl rfl
+  rcases ite_err_cases h with ⟨_, rfl⟩ | ⟨_, h⟩
+  · exact Or.inl rfl
+  rcases ite_err_cases h with ⟨_, rfl⟩ | ⟨_, h⟩
+  · exact Or.inl rfl
+  rcases ite_err_cases h with ⟨_, rfl⟩ | ⟨_, h⟩
+  · exact Or.inl rfl
+  rcases validateDomains_error_class target ds err h with h' | h'
+  · exact Or.inl h'
+  · exact Or.inr (Or.inr (Or.inl h'))
 
 /-- **The unconditional validator rejects with the documented classes only** (`KeyError` is the `node_to_index` lookup
-of `_valid_topo_list`; it is unreachable for graphs built by `from_edges`, where every edge endpoint is a node). -/
+of `_valid_topo_list`; it is unreachable for graphs built by `from_edges`, where every edge endpoint is a node;
+`TypeError` is check 6.5, a valueless self-intervened variable — `fix:` 333fa44). -/
 theorem validateU_error_class (target : MG Name) (ds : List Domain) (e : Event) (err : Err)
     (h : validateU target ds e = .error err) :
-    err = .invalidInput "ValueError" ∨ err = .invalidInput "NotImplementedError" ∨ err = .internal "KeyError" := by
+    err = .invalidInput "TypeError" ∨ err = .invalidInput "ValueError" ∨ err = .invalidInput "NotImplementedError" ∨
+      err = .internal "KeyError" := by
   unfold validateU vErr at h
   split at h
-  · cases h; exact Or.inl rfl
-  · exact validateCommon_error_class _ _ _ _ _ _ h
+  · cases h; exact Or.inr (Or.inl rfl)
+  · rcases validateCommon_error_class _ _ _ _ _ _ _ h with h' | h' | h' | ⟨_, h'⟩
+    · exact Or.inr (Or.inl h')
+    · exact Or.inr (Or.inr (Or.inl h'))
+    · exact Or.inr (Or.inr (Or.inr h'))
+    · exact Or.inl h'
 
 /-- **The conditional validator**: additionally `TypeError` for a variable without a value (the strict conversion). -/
 theorem validateC_error_class (target : MG Name) (ds : List Domain) (o c : Event) (err : Err)
@@ -115,40 +148,51 @@ theorem validateC_error_class (target : MG Name) (ds : List Domain) (o c : Event
     · cases h; exact Or.inr (Or.inl rfl)
     · split at h
       · cases h; exact Or.inr (Or.inl rfl)
-      · exact Or.inr (validateCommon_error_class _ _ _ _ _ _ h)
+      · rcases validateCommon_error_class _ _ _ _ _ _ _ h with h' | h' | h' | ⟨hf, _⟩
+        · exact Or.inr (Or.inl h')
+        · exact Or.inr (Or.inr (Or.inl h'))
+        · exact Or.inr (Or.inr (Or.inr h'))
+        · cases hf
 
 /-- what an accepted unconditional input looks like (the part of the contract the algorithms rely on): a non-empty event
-with at least one value, over variables of a non-empty acyclic target graph without selection nodes, at least one domain -/
+with at least one value, over variables of a non-empty acyclic target graph without selection nodes, at least one domain;
+every self-intervened variable has a value (check 6.5, `fix:` 333fa44: `validateU_selfNone`) -/
 theorem validateU_accepts (target : MG Name) (ds : List Domain) (e : Event) (h : validateU target ds e = .ok ()) :
     e ≠ [] ∧ target.nodes ≠ [] ∧ ds ≠ [] ∧ (∃ p ∈ e, p.2.isSome = true) ∧ target.isAcyclic = true ∧
     (∀ v ∈ target.nodes, Trso.isTnode v = false) ∧ (∀ p ∈ e, p.1.name ∈ target.nodes) ∧
     (∀ d ∈ ds, seteq' target.nodes (regular d.graph) = true) := by
-  unfold validateU at h
-  split at h
-  · cases h
-  · rename_i he
-    unfold validateCommon vErr at h
-    repeat' split at h
-    all_goals try cases h
-    rename_i h1 h2 h3 h4 h5 h6 h7 h8 h9 h10 h11
-    refine ⟨by simpa using he, by simpa using h1, by simpa using h4, ?_, by simpa using h8, ?_, ?_, ?_⟩
-    · have : ¬ (e.all fun p => p.2.isNone) = true := h3
-      simp only [List.all_eq_true, not_forall] at this
-      obtain ⟨p, hp, hpn⟩ := this
-      exact ⟨p, hp, by cases hv : p.2 <;> simp_all⟩
-    · intro v hv
-      have : ¬ target.nodes.any Trso.isTnode = true := h7
-      simp only [List.any_eq_true, not_exists, not_and] at this
-      simpa using this v hv
-    · intro p hp
-      have : ¬ (e.map (·.1)).any (fun v => decide (v.name ∉ target.nodes)) = true := h10
-      simp only [List.any_eq_true, not_exists, not_and, List.mem_map] at this
-      have := this p.1 ⟨p, hp, rfl⟩
-      simpa using this
-    · intro d hd
-      have : ¬ ds.any (fun d => !seteq' target.nodes (regular d.graph)) = true := h9
-      simp only [List.any_eq_true, not_exists, not_and] at this
-      simpa using this d hd
+  unfold validateU vErr at h
+  obtain ⟨he, h⟩ := ite_error_ok h
+  unfold validateCommon vErr at h
+  obtain ⟨h1, h⟩ := ite_error_ok h
+  obtain ⟨_, h⟩ := ite_error_ok h
+  obtain ⟨h3, h⟩ := ite_error_ok h
+  obtain ⟨_, h⟩ := ite_error_ok h
+  obtain ⟨h4, h⟩ := ite_error_ok h
+  obtain ⟨_, h⟩ := ite_error_ok h
+  obtain ⟨_, h⟩ := ite_error_ok h
+  obtain ⟨h7, h⟩ := ite_error_ok h
+  obtain ⟨h8, h⟩ := ite_error_ok h
+  obtain ⟨h9, h⟩ := ite_error_ok h
+  obtain ⟨h10, h⟩ := ite_error_ok h
+  refine ⟨by simpa using he, by simpa using h1, by simpa using h4, ?_, by simpa using h8, ?_, ?_, ?_⟩
+  · have : ¬ (e.all fun p => p.2.isNone) = true := h3
+    simp only [List.all_eq_true, not_forall] at this
+    obtain ⟨p, hp, hpn⟩ := this
+    exact ⟨p, hp, by cases hv : p.2 <;> simp_all⟩
+  · intro v hv
+    have : ¬ target.nodes.any Trso.isTnode = true := h7
+    simp only [List.any_eq_true, not_exists, not_and] at this
+    simpa using this v hv
+  · intro p hp
+    have : ¬ (e.map (·.1)).any (fun v => decide (v.name ∉ target.nodes)) = true := h10
+    simp only [List.any_eq_true, not_exists, not_and, List.mem_map] at this
+    have := this p.1 ⟨p, hp, rfl⟩
+    simpa using this
+  · intro d hd
+    have : ¬ ds.any (fun d => !seteq' target.nodes (regular d.graph)) = true := h9
+    simp only [List.any_eq_true, not_exists, not_and] at this
+    simpa using this d hd
 
 /-- the conditional procedure only accepts queries in which every outcome and condition has a value -/
 theorem validateC_strict (target : MG Name) (ds : List Domain) (o c : Event) (h : validateC target ds o c = .ok ()) :
@@ -242,14 +286,18 @@ theorem ctfTR_trichotomy (target : MG Name) (ds : List Domain) (o c : Event) (hv
     rw [hk, ctfTR_invalid_iff, hv] at h
     cases h
 
--- OPEN: ctf_no_internal_error
+-- OPEN: ctf_no_internal_error (no hypothesis about the domain graphs)
 --   theorem ctf_no_internal_error (hv : validateU target ds e = .ok ()) (hwf : target.WF ∧ ∀ d ∈ ds, d.graph.WF) :
---       ∀ err, ctfTRu target ds e ≠ .error err          (and the same for ctfTR with api.py's `derive` / `line4`)
---   FALSE of the current code: SIMPLIFY raises TypeError on events with a valueless or self-intervened variable, and
---   Algorithm 3 raises ValueError / KeyError from the event it derives itself and from its final checks (known findings
---   crash:simplify-typeerror, crash:ctfTR-derived-event-rejected, crash:ctfTR-final-check; witnesses in the corpus).
---   PROVED for Algorithm 2 outside the crash class and for selection diagrams that agree with the target graph:
---   §5 `ctfTRu_no_internal_error_partial`.  Still open: Algorithm 3 (`derive` / `line4` are parameters of the model).
+--       ∀ err, ctfTRu target ds e ≠ .error err          (and the same for ctfTR)
+--   PROVED for every validated input whose selection diagrams agree with the target graph (`DomainsAgree`):
+--   §5 `ctfTRu_no_internal_error`, §6 `ctfTR_no_internal_error` — the crash classes of SIMPLIFY and of Algorithm 3 are
+--   FIXED in the code (repo c8cad49, 333fa44, f335599; former findings crash:simplify-typeerror,
+--   crash:ctfTR-derived-event-rejected, crash:ctfTR-final-check; their witnesses are regression cases in corpus/C09).
+--   FALSE without `DomainsAgree`: Algorithm 4 raises `ValueError` when a source domain's graph lacks a bidirected edge of
+--   the target between two variables of one ctf-factor (open finding crash:sigmaTR-district-split, witness `w1` in §5).
+--   Not repaired: the validator cannot reject such domain graphs (the pinned suite uses them:
+--   test_transport_unconditional_counterfactual_query_line_5, test_transport_conditional_counterfactual_query_7), and
+--   treating the domain as unusable in Algorithm 4 would turn an inconsistent input into a silent FAIL.
 
 /-! ## 3. Zero only for impossible events -/
 
@@ -406,16 +454,25 @@ theorem transportFactors_all (ds : List Domain) : ∀ (fs : List Event) (qs : Li
 /-! ## 5. No other error outside the known crash classes -/
 
 open Trso (isTnode nsort) in
-/-- **SIMPLIFY raises only inside the crash class** `reflexive ∧ has_none` (harness key `crash:simplify-typeerror`):
-on a graph built by `from_edges`, for event variables that are nodes, of which the plain ones carry no star, with
-duplicate-free subscript lists. -/
+/-- **SIMPLIFY never raises on an event in which every self-intervened variable has a value** (after `fix:` c8cad49;
+the hypothesis is what check 6.5 of the validator establishes, `fix:` 333fa44 / `validateU_selfNone`): on a graph built
+by `from_edges`, for event variables that are nodes, of which the plain ones carry no star, with duplicate-free subscript
+lists.  Before the two fixes SIMPLIFY raised `TypeError` on the class `SimplifyRisk` (former finding
+`crash:simplify-typeerror`). -/
+theorem simplify_no_error (g : MG Name) (hg : g.WF) (e : Event)
+    (hnodes : ∀ p ∈ e, p.1.name ∈ g.nodes) (hvalid : ∀ p ∈ e, validEventVar p.1 = true)
+    (hnd : ∀ p ∈ e, p.1.ivs.Nodup) (hself : ∀ p ∈ e, selfIntervened p.1 = true → p.2 ≠ none) :
+    ∃ r, simplify g e = .ok r :=
+  simplify_total g hg e hnodes hvalid hnd hself
+
+/-- in particular outside the harness's former class `reflexive ∧ has_none` … -/
 theorem simplify_no_error_outside_class (g : MG Name) (hg : g.WF) (e : Event)
     (hnodes : ∀ p ∈ e, p.1.name ∈ g.nodes) (hvalid : ∀ p ∈ e, validEventVar p.1 = true)
     (hnd : ∀ p ∈ e, p.1.ivs.Nodup) (hcls : CrashClassU e = false) : ∃ r, simplify g e = .ok r :=
   simplify_total_of_class g hg e hnodes hvalid hnd hcls
 
-/-- the same for the smaller class on which the model of SIMPLIFY actually raises: a self-intervened `Y_y` together with
-a VALUELESS variable named `Y` (`Y_y` itself, the plain `Y`, any `Y_x`) -/
+/-- … and outside the smaller former class: a self-intervened `Y_y` together with a VALUELESS variable named `Y`
+(`Y_y` itself, the plain `Y`, any `Y_x`) -/
 theorem simplify_no_error_outside_risk (g : MG Name) (hg : g.WF) (e : Event)
     (hnodes : ∀ p ∈ e, p.1.name ∈ g.nodes) (hvalid : ∀ p ∈ e, validEventVar p.1 = true)
     (hnd : ∀ p ∈ e, p.1.ivs.Nodup) (hrisk : SimplifyRisk e = false) : ∃ r, simplify g e = .ok r :=
@@ -449,34 +506,30 @@ theorem transportFactors_no_error (ds : List Domain) (fs : List Event)
     ∃ r, transportFactors ds fs = .ok r :=
   transportFactors_total ds fs h
 
-/-- **C09, "never another error", Algorithm 2.**  An input accepted by the validator, on graphs built by `from_edges`,
-is answered or refused — `ctfTRu` returns no error at all — provided the event is outside the known crash class
-`reflexive ∧ has_none`, its variables are what `_event_from_counterfactuals` builds (`EventVarsPlain`), and the selection
-diagrams agree with the target graph on the bidirected edges between policy-free variables and have no bidirected edge
-at a selection node (`DomainsAgree`; the validator does not compare a domain graph with the target graph unless it is
-the target domain's own, and Algorithm 4 raises `ValueError` otherwise: witness `w1` below, confirmed on the Python). -/
-theorem ctfTRu_no_internal_error_partial (target : MG Name) (ds : List Domain) (e : Event)
+/-- **C09, "never another error", Algorithm 2 — for every validated event** (after `fix:` c8cad49 and 333fa44; before
+them SIMPLIFY raised `TypeError` after the validator had accepted an event with a self-intervened `Y_y` together with a
+valueless variable named `Y`: former finding `crash:simplify-typeerror`, former witness `w4` below).  An input accepted by
+the validator, on graphs built by `from_edges`, is answered or refused — `ctfTRu` returns no error at all — provided its
+variables are what `_event_from_counterfactuals` builds (`EventVarsPlain`), and the selection diagrams agree with the
+target graph on the bidirected edges between policy-free variables and have no bidirected edge at a selection node
+(`DomainsAgree`; the validator does not compare a domain graph with the target graph unless it is the target domain's
+own, and Algorithm 4 raises `ValueError` otherwise: open finding `crash:sigmaTR-district-split`, witness `w1` below,
+confirmed on the Python). -/
+theorem ctfTRu_no_internal_error (target : MG Name) (ds : List Domain) (e : Event)
     (hv : validateU target ds e = .ok ()) (hwf : target.WF) (hds : ∀ d ∈ ds, d.graph.WF)
-    (hcls : CrashClassU e = false) (hplain : EventVarsPlain e) (hdom : DomainsAgree target ds) :
+    (hplain : EventVarsPlain e) (hdom : DomainsAgree target ds) :
     ∀ err, ctfTRu target ds e ≠ .error err :=
-  ctfTRu_total_of_class target ds e hv hwf hds hcls hplain hdom
-
-/-- the same outside the smaller class `SimplifyRisk` -/
-theorem ctfTRu_no_internal_error_risk (target : MG Name) (ds : List Domain) (e : Event)
-    (hv : validateU target ds e = .ok ()) (hwf : target.WF) (hds : ∀ d ∈ ds, d.graph.WF)
-    (hrisk : SimplifyRisk e = false) (hplain : EventVarsPlain e) (hdom : DomainsAgree target ds) :
-    ∀ err, ctfTRu target ds e ≠ .error err :=
-  ctfTRu_total_of_risk target ds e hv hwf hds hrisk hplain hdom
+  ctfTRu_total target ds e hv hwf hds hplain hdom
 
 /-- with the trichotomy: such an input is answered or refused -/
 theorem ctfTRu_answers_or_fails (target : MG Name) (ds : List Domain) (e : Event)
     (hv : validateU target ds e = .ok ()) (hwf : target.WF) (hds : ∀ d ∈ ds, d.graph.WF)
-    (hcls : CrashClassU e = false) (hplain : EventVarsPlain e) (hdom : DomainsAgree target ds) :
+    (hplain : EventVarsPlain e) (hdom : DomainsAgree target ds) :
     (∃ a, ctfTRu target ds e = .ok (some a)) ∨ ctfTRu target ds e = .ok none := by
   rcases ctfTRu_trichotomy target ds e hv with h | h | ⟨err, herr, _⟩
   · exact Or.inl h
   · exact Or.inr h
-  · exact absurd herr (ctfTRu_no_internal_error_partial target ds e hv hwf hds hcls hplain hdom err)
+  · exact absurd herr (ctfTRu_no_internal_error target ds e hv hwf hds hplain hdom err)
 
 open Trso (isTnode nsort) in
 open TianSpec in
@@ -552,11 +605,11 @@ theorem fig2_domainsAgree : DomainsAgree fig2a [fig2dom1, fig2dom2] := by
 
 /-- the theorem applies to Example 4.2 -/
 example : ∀ err, ctfTRu fig2a [fig2dom1, fig2dom2] ex42 ≠ .error err :=
-  ctfTRu_no_internal_error_partial _ _ _ (by decide +kernel) (MG.wf_fromEdges _ _ _)
+  ctfTRu_no_internal_error _ _ _ (by decide +kernel) (MG.wf_fromEdges _ _ _)
     (by intro d hd
         simp only [List.mem_cons, List.not_mem_nil, or_false] at hd
         rcases hd with rfl | rfl <;> exact MG.wf_fromEdges _ _ _)
-    (by decide) (by unfold EventVarsPlain; decide) fig2_domainsAgree
+    (by unfold EventVarsPlain; decide) fig2_domainsAgree
 
 def isInternal (k : String) : Except Err (Option Answer) → Bool
   | .error (.internal k') => k == k'
@@ -578,20 +631,25 @@ example : CrashClassU w1Event = false := by decide
 example : EventVarsPlain w1Event := by unfold EventVarsPlain; decide
 example : isInternal "ValueError" (ctfTRu w1Target [w1Dom] w1Event) = true := by decide +kernel
 
-/-- `reflexive ∧ has_none` is wider than the class on which SIMPLIFY raises: `Y_y = y` with a valueless `X` is in the
-harness's class, outside `SimplifyRisk`, and answered; `Y_y = y` with a valueless `Y` raises (both as the Python). -/
+/-- former witnesses of the class `crash:simplify-typeerror` (regression cases in corpus/C09): `Y_y = y` with a valueless
+`X` was always answered; `Y_y = y` with a valueless `Y` (`w4`) raised `TypeError` from SIMPLIFY before `fix:` c8cad49 and
+is answered now; a VALUELESS `Y_y` (`w5`) raised the same `TypeError` after validation and is rejected by the validator
+now (`fix:` 333fa44) — all three as the Python. -/
 def w3Graph : MG Name := MG.fromEdges [1, 2] [] []
 def w3Dom : Domain :=
   { graph := MG.fromEdges [1, 2] [] [], topo := [1, 2], policy := [],
     pop := .prob (some (Var.plain 1001)) (TrDsl.plainVars [1, 2]) [] }
 def w3Event : Event := [({ name := 2, ivs := [⟨2, false⟩] }, some ⟨2, false⟩), ({ name := 1 }, none)]
 def w4Event : Event := [({ name := 2, ivs := [⟨2, false⟩] }, some ⟨2, false⟩), ({ name := 2 }, none)]
+def w5Event : Event := [({ name := 2, ivs := [⟨2, false⟩] }, none), ({ name := 1 }, some ⟨1, false⟩)]
 
 example : CrashClassU w3Event = true ∧ SimplifyRisk w3Event = false := by decide
 example : isAnswerWithEvent (ctfTRu w3Graph [w3Dom] w3Event) = true := by decide +kernel
 example : SimplifyRisk w4Event = true := by decide
 example : validateU w3Graph [w3Dom] w4Event = .ok () := by decide +kernel
-example : isInternal "TypeError" (ctfTRu w3Graph [w3Dom] w4Event) = true := by decide +kernel
+example : isAnswerWithEvent (ctfTRu w3Graph [w3Dom] w4Event) = true := by decide +kernel
+example : SimplifyRisk w5Event = true := by decide
+example : validateU w3Graph [w3Dom] w5Event = .error (.invalidInput "TypeError") := by decide +kernel
 
 /-! ## 6. Algorithm 3 (ctfTR): where Zero comes from, the shape of an answer, no other error
 
@@ -672,77 +730,88 @@ theorem ctfTR_q_good (target : MG Name) (ds : List Domain) (o c : Event)
     QGood target ds o c :=
   qGood_holds target ds o c hv hwf hds hbiT hplain
 
-/-- **C09, "never another error", Algorithm 3.**  An input accepted by the conditional validator, on graphs built by
-`from_edges`, with query variables as the public wrapper builds them and selection diagrams that agree with the target
-graph (`EventVarsPlain`, `DomainsAgree`: the hypotheses of `ctfTRu_no_internal_error_partial`), is answered or refused —
-`ctfTR` returns no error at all — outside the crash classes, each a decidable predicate on the input:
-* `OutcomesFound = false`: some outcome variable `Y_x` is not found in the ancestral components under its own name
-  (they store `‖Y_x‖` of the graph without the edges out of the conditioned ancestors): `ValueError('empty list for the
-  event')` from Algorithm 2's validator when no outcome is found, `KeyError` of the fifth final check when some are
-  (findings `crash:ctfTR-derived-event-rejected`, `crash:ctfTR-final-check`);
-* `DstarOneWorld = false`: `D*` names a vertex in two worlds (then the dict of the final checks keeps one of two values);
-* `OutcomeNotCondition = false`: an outcome shares its vertex with a condition (fifth final check);
-(Every vertex is a variable of every domain's distribution — `PopsCoverNodes`, needed by the third final check — because
-the validator checks it: `popsCover_of_validateC`.) -/
-theorem ctfTR_no_internal_error_partial (target : MG Name) (ds : List Domain) (o c : Event)
+/-- **C09, "never another error", Algorithm 3 — for every validated input** (after `fix:` f335599; before it this was
+FALSE: the outcomes were looked up in the ancestral components under their raw name, and an outcome `Y_x` whose subscript
+is not kept was not found — `ValueError('empty list for the event')` from Algorithm 2's validator when no outcome was
+found, `KeyError` of the fifth final check when some were; former findings `crash:ctfTR-derived-event-rejected`,
+`crash:ctfTR-final-check`; former witness `a3Miss`, now an answered regression case).
+An input accepted by the conditional validator is answered or refused — `ctfTR` returns no error at all.  No class of
+queries is excluded; the remaining hypotheses describe the INPUT FORMAT, not the query:
+* `target.WF`, `d.graph.WF`: graphs built by `from_edges`;
+* `EventVarsPlain`: query variables as the public wrapper `conditional_cft` builds them (no value mark on the variable,
+  subscripts a frozenset);
+* `PopsPlain`: the children of every domain's `PopulationProbability` are plain `Variable`s — the "joint distribution tag"
+  `PP[π](V)` of C09's quantifier (for other distributions see `ctfTR_no_internal_error_anypop_partial` and `a3Shared`);
+* `DomainsAgree`: every selection diagram keeps the target's bidirected edges between non-policy variables and has no
+  bidirected edge at a selection node — the hypothesis Algorithm 2 needs (`ctfTRu_no_internal_error`; without
+  it Algorithm 4 raises `ValueError`: open finding `crash:sigmaTR-district-split`, witness `w1` above).
+What changed in the proof: every outcome is found under its lookup key (`Ctf.ancestralSetRoot_mem`: `‖W_t‖` of the graph
+without the edges out of the conditioned ancestors IS the member of `An(W_t)` that stands for `W_t`;
+`line2C_ok`), so `D*` is never empty and the fifth final check finds every outcome's vertex. -/
+theorem ctfTR_no_internal_error (target : MG Name) (ds : List Domain) (o c : Event)
     (hv : validateC target ds o c = .ok ()) (hwf : target.WF) (hds : ∀ d ∈ ds, d.graph.WF)
-    (hdom : DomainsAgree target ds) (hplain : EventVarsPlain (o ++ c))
-    (hfound : OutcomesFound target o c = true) (hone : DstarOneWorld target o c = true)
-    (hdisj : OutcomeNotCondition o c = true) :
+    (hdom : DomainsAgree target ds) (hplain : EventVarsPlain (o ++ c)) (hpp : PopsPlain ds) :
     ∀ err, ctfTR target ds o c ≠ .error err :=
-  ctfTR_total_of_parts target ds o c hv hwf hds hdom hplain hfound hone hdisj (popsCover_of_validateC target ds o c hv)
-    (qGood_holds target ds o c hv hwf hds (fun d hd => (hdom d hd).2) hplain)
+  ctfTR_total_plain target ds o c hv hwf hds hdom hplain hpp
 
-/-- the composition behind it, with the facts about the domains' distributions and about `Q` as hypotheses
-(`PopsCoverNodes`, `QGood`; they hold by `popsCover_of_validateC` and `ctfTR_q_good`) -/
-theorem ctfTR_no_internal_error_of_parts (target : MG Name) (ds : List Domain) (o c : Event)
-    (hv : validateC target ds o c = .ok ()) (hwf : target.WF) (hds : ∀ d ∈ ds, d.graph.WF)
-    (hdom : DomainsAgree target ds) (hplain : EventVarsPlain (o ++ c))
-    (hfound : OutcomesFound target o c = true) (hone : DstarOneWorld target o c = true)
-    (hdisj : OutcomeNotCondition o c = true) (hpop : PopsCoverNodes target ds) (hq : QGood target ds o c) :
-    ∀ err, ctfTR target ds o c ≠ .error err :=
-  ctfTR_total_of_parts target ds o c hv hwf hds hdom hplain hfound hone hdisj hpop hq
-
-/-- with the trichotomy: such an input is answered or refused -/
+/-- with the trichotomy: every such input is answered or refused -/
 theorem ctfTR_answers_or_fails (target : MG Name) (ds : List Domain) (o c : Event)
     (hv : validateC target ds o c = .ok ()) (hwf : target.WF) (hds : ∀ d ∈ ds, d.graph.WF)
-    (hdom : DomainsAgree target ds) (hplain : EventVarsPlain (o ++ c))
-    (hfound : OutcomesFound target o c = true) (hone : DstarOneWorld target o c = true)
-    (hdisj : OutcomeNotCondition o c = true) :
+    (hdom : DomainsAgree target ds) (hplain : EventVarsPlain (o ++ c)) (hpp : PopsPlain ds) :
     (∃ a, ctfTR target ds o c = .ok (some a)) ∨ ctfTR target ds o c = .ok none := by
   rcases ctfTR_trichotomy target ds o c hv with h | h | ⟨err, herr, _⟩
   · exact Or.inl h
   · exact Or.inr h
-  · exact absurd herr (ctfTR_no_internal_error_partial target ds o c hv hwf hds hdom hplain hfound hone hdisj err)
+  · exact absurd herr (ctfTR_no_internal_error target ds o c hv hwf hds hdom hplain hpp err)
+
+/-- **arbitrary domain distributions** (a `PopulationProbability` that lists counterfactual variables): Algorithm 3 never
+raises when no outcome shares its vertex with a condition (`OutcomeNotCondition`, decidable; NEEDED for such
+distributions: witness `a3Shared` below) -/
+theorem ctfTR_no_internal_error_anypop_partial (target : MG Name) (ds : List Domain) (o c : Event)
+    (hv : validateC target ds o c = .ok ()) (hwf : target.WF) (hds : ∀ d ∈ ds, d.graph.WF)
+    (hdom : DomainsAgree target ds) (hplain : EventVarsPlain (o ++ c)) (hdisj : OutcomeNotCondition o c = true) :
+    ∀ err, ctfTR target ds o c ≠ .error err :=
+  ctfTR_total_without_oneWorld target ds o c hv hwf hds hdom hplain hdisj
+
+/-- the composition behind both, with the facts about the domains' distributions and about `Q` as hypotheses
+(`QCovers`: the vertex of an outcome that is also a condition vertex occurs in `Q`; `PopsCoverNodes`, `QGood`; they hold
+by `qCovers_of_popsPlain` / `qCovers_of_disjoint`, `popsCover_of_validateC` and `ctfTR_q_good`) -/
+theorem ctfTR_no_internal_error_of_parts (target : MG Name) (ds : List Domain) (o c : Event)
+    (hv : validateC target ds o c = .ok ()) (hwf : target.WF) (hds : ∀ d ∈ ds, d.graph.WF)
+    (hdom : DomainsAgree target ds) (hplain : EventVarsPlain (o ++ c))
+    (hcov : QCovers target ds o c) (hpop : PopsCoverNodes target ds) (hq : QGood target ds o c) :
+    ∀ err, ctfTR target ds o c ≠ .error err :=
+  ctfTR_total_of_cover target ds o c hv hwf hds hdom hplain hcov hpop hq
+
+/-- **every outcome is found** (the fact the fix establishes): lines 1-2 never raise, every outcome has a lookup key with
+its graph vertex and value, and every lookup key is a variable of `D*` -/
+theorem ctfTR_outcomes_found (target : MG Name) (hwf : target.WF) (o c : Event)
+    (ho : ∀ p ∈ o, VarOK target p.1) (hc : ∀ p ∈ c, VarOK target p.1) (hos : ∀ p ∈ o, p.1.star = none) :
+    ∃ lk D, lookupOutcomes target o c = .ok lk ∧ dstarVars target o c = .ok D ∧
+      (∀ p ∈ o, ∃ p' ∈ lk, p'.1.name = p.1.name ∧ p'.2 = p.2) ∧ ∀ p' ∈ lk, p'.1 ∈ D := by
+  obtain ⟨lk, D, _, _, hlk, hrel, hfound, hD, _⟩ := line2C_ok target hwf o c ho hc hos
+  exact ⟨lk, D, hlk, hD, fun p hp => hrel.of_out p hp, hfound⟩
 
 /-- the parts, for reference: lines 1-2 never raise (`line2C_ok`), Algorithm 2's validator accepts a non-empty `D*`
-(`validateU_dstar`), and line 4 never raises under the stated facts (`line4C_ok`) -/
+(`validateU_dstar`), and line 4 never raises under the stated facts (`line4C_ok_of_cover`) -/
 theorem ctfTR_line2_total (target : MG Name) (hwf : target.WF) (o c : Event)
-    (ho : ∀ p ∈ o, VarOK target p.1) (hc : ∀ p ∈ c, VarOK target p.1) :
+    (ho : ∀ p ∈ o, VarOK target p.1) (hc : ∀ p ∈ c, VarOK target p.1) (hos : ∀ p ∈ o, p.1.star = none) :
     ∃ dstar dNames, line2C target o c = .ok (dstar, dNames) := by
-  obtain ⟨_, dstar, dNames, _, h, _⟩ := line2C_ok target hwf o c ho hc
+  obtain ⟨_, _, dstar, dNames, _, _, _, _, h, _⟩ := line2C_ok target hwf o c ho hc hos
   exact ⟨dstar, dNames, h⟩
 
--- OPEN: ctfTR_no_internal_error (Algorithm 3, for every validated input)
---   theorem ctfTR_no_internal_error (hv : validateC target ds o c = .ok ()) (hwf : target.WF) (hds : ∀ d ∈ ds, d.graph.WF)
---       (hdom : DomainsAgree target ds) (hplain : EventVarsPlain (o ++ c)) : ∀ err, ctfTR target ds o c ≠ .error err
---   FALSE of the current code without `OutcomesFound`: witness `a3Miss` below (ValueError from Algorithm 2's validator on
---   the empty D*), confirmed on the Python (findings crash:ctfTR-derived-event-rejected, crash:ctfTR-final-check).
---   The two other class hypotheses of `ctfTR_no_internal_error_partial` are DECIDED (end of this section):
---   * `DstarOneWorld` is NOT needed: `ctfTR_no_internal_error_found_partial`.  A vertex in two worlds either disappears
---     in the conversion of `D*` to ctf-factor form (both copies become `W_{pa(W)}` with the same parent values: SIMPLIFY
---     binds a variable once) or makes line 3 of Algorithm 2 answer FAIL (two values of one parent in one ctf-factor), so
---     the simplified event of an ANSWER binds every vertex once (`ffEvent_answer_fun`).  Non-vacuity: `a3Two`.
+-- (the former `-- OPEN: ctfTR_no_internal_error` block is closed by `ctfTR_no_internal_error` above.)
+-- Decided on the way (round 4), still valid:
+--   * `DstarOneWorld` is not needed: a vertex in two worlds either disappears in the conversion of `D*` to ctf-factor form
+--     (both copies become `W_{pa(W)}` with the same parent values: SIMPLIFY binds a variable once) or makes line 3 of
+--     Algorithm 2 answer FAIL (two values of one parent in one ctf-factor), so the simplified event of an ANSWER binds
+--     every vertex once (`ffEvent_answer_fun`, `ctfTR_simplified_binds_once`).  Non-vacuity: `a3Two`.
 --   * `OutcomeNotCondition` IS needed for arbitrary domain distributions: witness `a3Shared` below — the domain's
 --     distribution `PP[π](X, Y, Y_x)` lists a counterfactual variable next to its vertex, Lemma 1 of Tian's IDENTIFY
 --     writes the factor of `Y` in that world, `Y` does not occur in `Q`, and the fifth final check raises `KeyError` for
 --     `P*(Y = y | Y = y')` after both validators accepted the input; confirmed on the Python
 --     (tools/c09_popworld_witness.py; not expressible in the case format of harness/props/c09.py, whose domains carry
---     `PP[π](V)` only).  It is NOT needed for distributions over plain variables (`PopsPlain`, what `PP[π](V)` is):
---     `ctfTR_no_internal_error_plain_partial` — `OutcomesFound` is then the only crash class of Algorithm 3.
---   No run of ./check C09 produced an exception on an input with `OutcomesFound = true` (4371 conditional cases of the
---   quick tier, seed 0: all 1785 internal errors have `OutcomesFound = false`; tools/c09_errsearch.py: 200000 cases biased
---   towards the two classes, 0 exceptions of the model with `OutcomesFound = true`).
+--     `PP[π](V)` only).  It is NOT needed for distributions over plain variables (`PopsPlain`, what `PP[π](V)` is).
 
 /-! ### non-vacuity for Algorithm 3: Example 4.5-like `P*(y_x | x')` on figure 2a (corpus), and a crash-class witness -/
 
@@ -760,20 +829,22 @@ example : popsCoverCheck fig2a [fig2dom1, fig2dom2] = true ∧ qGoodCheck fig2a 
 
 /-- the theorem applies to the example -/
 example : ∀ err, ctfTR fig2a [fig2dom1, fig2dom2] a3Out a3Cond ≠ .error err :=
-  ctfTR_no_internal_error_partial _ _ _ _ (by decide +kernel) (MG.wf_fromEdges _ _ _)
+  ctfTR_no_internal_error _ _ _ _ (by decide +kernel) (MG.wf_fromEdges _ _ _)
     (by intro d hd
         simp only [List.mem_cons, List.not_mem_nil, or_false] at hd
         rcases hd with rfl | rfl <;> exact MG.wf_fromEdges _ _ _)
-    fig2_domainsAgree (by unfold EventVarsPlain; decide) (by decide +kernel) (by decide +kernel) (by decide +kernel)
+    fig2_domainsAgree (by unfold EventVarsPlain; decide) (popsPlain_of_check _ (by decide +kernel))
 
 /-- the returned event of the example is `Y = y, X = x'` -/
 example : (match ctfTR fig2a [fig2dom1, fig2dom2] a3Out a3Cond with
     | .ok (some (_, some ev)) => decide (ev = [(Var.plain 2, some ⟨2, false⟩), (Var.plain 1, some ⟨1, true⟩)])
     | _ => false) = true := by decide +kernel
 
-/-- **crash-class witness `a3Miss`** (finding `crash:ctfTR-derived-event-rejected`, as the Python): two isolated nodes
-`X`, `Y`; `P*(Y_x = y | X = x)`.  The components store `‖Y_x‖ = Y`, the outcome `Y_x` is not found, `D*` is empty and
-Algorithm 2's validator raises `ValueError` after the conditional validator accepted the input. -/
+/-- **former crash-class witness `a3Miss`** (former finding `crash:ctfTR-derived-event-rejected`; corpus/C09 keeps it as
+a regression case): two isolated nodes `X`, `Y`; `P*(Y_x = y | X = x)`.  The components store `‖Y_x‖ = Y`; before `fix:`
+f335599 the outcome `Y_x` was not found under its raw name, `D*` was empty and Algorithm 2's validator raised
+`ValueError` after the conditional validator had accepted the input.  Now the outcome is looked up as `Y`, and the query
+is answered with the same expression as `P*(Y = y | X = x)`. -/
 def a3MissGraph : MG Name := MG.fromEdges [1, 2] [] []
 def a3MissDom : Domain :=
   { graph := MG.fromEdges [1, 2] [] [], topo := [1, 2], policy := [],
@@ -782,11 +853,29 @@ def a3MissOut : Event := [({ name := 2, ivs := [⟨1, false⟩] }, some ⟨2, fa
 def a3MissCond : Event := [({ name := 1 }, some ⟨1, false⟩)]
 
 example : validateC a3MissGraph [a3MissDom] a3MissOut a3MissCond = .ok () := by decide +kernel
+/-- the outcome is not a member of the components under its RAW name … -/
 example : OutcomesFound a3MissGraph a3MissOut a3MissCond = false := by decide +kernel
-example : isInternal "ValueError" (ctfTR a3MissGraph [a3MissDom] a3MissOut a3MissCond) = true := by decide +kernel
-/-- the same query with the minimal outcome `Y` is answered -/
-example : isAnswerWithEvent (ctfTR a3MissGraph [a3MissDom] [({ name := 2 }, some ⟨2, false⟩)] a3MissCond) = true := by
-  decide +kernel
+/-- … its lookup key is `Y` … -/
+example : lookupOutcomes a3MissGraph a3MissOut a3MissCond = .ok [({ name := 2 }, some ⟨2, false⟩)] := by decide +kernel
+/-- … and the query is answered, with the returned event of the query with the minimal outcome `Y` -/
+example : isAnswerWithEvent (ctfTR a3MissGraph [a3MissDom] a3MissOut a3MissCond) = true := by decide +kernel
+example : (match ctfTR a3MissGraph [a3MissDom] a3MissOut a3MissCond,
+      ctfTR a3MissGraph [a3MissDom] [({ name := 2 }, some ⟨2, false⟩)] a3MissCond with
+    | .ok (some (_, some ev)), .ok (some (_, some ev')) => decide (ev = ev')
+    | _, _ => false) = true := by decide +kernel
+/-- `ctfTR_no_internal_error` applies to it -/
+example : ∀ err, ctfTR a3MissGraph [a3MissDom] a3MissOut a3MissCond ≠ .error err :=
+  ctfTR_no_internal_error _ _ _ _ (by decide +kernel) (MG.wf_fromEdges _ _ _)
+    (by intro d hd
+        simp only [List.mem_singleton] at hd
+        subst hd; exact MG.wf_fromEdges _ _ _)
+    (by intro d hd
+        simp only [List.mem_singleton] at hd
+        subst hd
+        refine ⟨fun a b hab _ _ => ?_, fun a b hab => ?_⟩
+        · rw [a3MissGraph, MG.biEdge_fromEdges] at hab; simp at hab
+        · rw [a3MissDom, MG.biEdge_fromEdges] at hab; simp at hab)
+    (by unfold EventVarsPlain; decide) (popsPlain_of_check _ (by decide +kernel))
 
 /-- check 15 of the validators (`v in expression.get_variables()` for every graph vertex `v`) is a test on `Variable`
 OBJECTS: the distribution `PP[π1](Y_x)` names `X` and `Y` but contains neither as a plain variable, and is rejected (as
@@ -797,43 +886,7 @@ def a3PopDom : Domain :=
 example : validateU (MG.fromEdges [] [(1, 2)] []) [a3PopDom] [({ name := 2 }, some ⟨2, false⟩)] =
     .error (.invalidInput "ValueError") := by decide +kernel
 
-/-! ### the two other class hypotheses of `ctfTR_no_internal_error_partial`, decided -/
-
-/-- **`DstarOneWorld` is not needed.**  An input accepted by the conditional validator (graphs built by `from_edges`,
-`EventVarsPlain`, `DomainsAgree`) whose outcomes are all found in the ancestral components under their own name and
-share no vertex with a condition is answered or refused, whether or not `D*` names a vertex in two worlds: the simplified
-event of an answer of Algorithm 2 on `D*` binds every graph vertex once (Y0/Lemmas/CtfTrAlg3Err.lean:
-`ffEvent_answer_fun`, `line2_same_name`), so the dict of the final checks loses nothing. -/
-theorem ctfTR_no_internal_error_found_partial (target : MG Name) (ds : List Domain) (o c : Event)
-    (hv : validateC target ds o c = .ok ()) (hwf : target.WF) (hds : ∀ d ∈ ds, d.graph.WF)
-    (hdom : DomainsAgree target ds) (hplain : EventVarsPlain (o ++ c))
-    (hfound : OutcomesFound target o c = true) (hdisj : OutcomeNotCondition o c = true) :
-    ∀ err, ctfTR target ds o c ≠ .error err :=
-  ctfTR_total_without_oneWorld target ds o c hv hwf hds hdom hplain hfound hdisj
-
-/-- **`OutcomeNotCondition` is not needed for distributions over plain variables.**  When the children of every domain's
-`PopulationProbability` are plain `Variable`s (`PopsPlain`, e.g. `PP[π](V)`), an input accepted by the conditional
-validator whose outcomes are all found is answered or refused: `OutcomesFound` is the only crash class of Algorithm 3.
-(The expression `Q` of Algorithm 2 then mentions the vertex of every found outcome — a lower bound on the variables of
-IDENTIFY's expressions, Y0/Lemmas/CtfTrAlg3ErrQ.lean: `identify_low`, `qCovers_of_popsPlain` — which is what the fifth
-final check needs for an outcome that is also a condition.) -/
-theorem ctfTR_no_internal_error_plain_partial (target : MG Name) (ds : List Domain) (o c : Event)
-    (hv : validateC target ds o c = .ok ()) (hwf : target.WF) (hds : ∀ d ∈ ds, d.graph.WF)
-    (hdom : DomainsAgree target ds) (hplain : EventVarsPlain (o ++ c))
-    (hfound : OutcomesFound target o c = true) (hpp : PopsPlain ds) :
-    ∀ err, ctfTR target ds o c ≠ .error err :=
-  ctfTR_total_of_found target ds o c hv hwf hds hdom hplain hfound hpp
-
-/-- with the trichotomy -/
-theorem ctfTR_answers_or_fails_plain (target : MG Name) (ds : List Domain) (o c : Event)
-    (hv : validateC target ds o c = .ok ()) (hwf : target.WF) (hds : ∀ d ∈ ds, d.graph.WF)
-    (hdom : DomainsAgree target ds) (hplain : EventVarsPlain (o ++ c))
-    (hfound : OutcomesFound target o c = true) (hpp : PopsPlain ds) :
-    (∃ a, ctfTR target ds o c = .ok (some a)) ∨ ctfTR target ds o c = .ok none := by
-  rcases ctfTR_trichotomy target ds o c hv with h | h | ⟨err, herr, _⟩
-  · exact Or.inl h
-  · exact Or.inr h
-  · exact absurd herr (ctfTR_no_internal_error_plain_partial target ds o c hv hwf hds hdom hplain hfound hpp err)
+/-! ### the fact that replaces `DstarOneWorld` -/
 
 /-- the part that replaces `DstarOneWorld`: an answer of Algorithm 2 on `D*` binds every graph vertex once -/
 theorem ctfTR_simplified_binds_once (target : MG Name) (ds : List Domain) (o c : Event)
@@ -851,8 +904,9 @@ theorem ctfTR_simplified_binds_once (target : MG Name) (ds : List Domain) (o c :
     rcases List.mem_append.1 hp with h | h
     · exact List.mem_append_right _ h
     · exact List.mem_append_left _ h
-  obtain ⟨D, dstar', dNames', _, h2', _, hfacts⟩ := line2C_ok target hwf o c
+  obtain ⟨lk, D, dstar', dNames', _, _, _, _, h2', _, hfacts⟩ := line2C_ok target hwf o c
     (fun p hp => hok p (List.mem_append_left _ hp)) (fun p hp => hok p (List.mem_append_right _ hp))
+    (fun p hp => (hplain p (List.mem_append_left _ hp)).1)
   rw [h2] at h2'
   simp only [Except.ok.injEq, Prod.mk.injEq] at h2'
   obtain ⟨rfl, rfl⟩ := h2'
@@ -888,13 +942,13 @@ example : validateC a3TwoGraph [a3TwoDom] a3TwoOut a3TwoCond = .ok () := by deci
 example : OutcomesFound a3TwoGraph a3TwoOut a3TwoCond = true ∧ DstarOneWorld a3TwoGraph a3TwoOut a3TwoCond = false ∧
     OutcomeNotCondition a3TwoOut a3TwoCond = true := by decide +kernel
 example : isAnswerWithEvent (ctfTR a3TwoGraph [a3TwoDom] a3TwoOut a3TwoCond) = true := by decide +kernel
-/-- `ctfTR_no_internal_error_found_partial` applies to it (`ctfTR_no_internal_error_partial` does not) -/
+/-- `ctfTR_no_internal_error_anypop_partial` applies to it -/
 example : ∀ err, ctfTR a3TwoGraph [a3TwoDom] a3TwoOut a3TwoCond ≠ .error err :=
-  ctfTR_no_internal_error_found_partial _ _ _ _ (by decide +kernel) (MG.wf_fromEdges _ _ _)
+  ctfTR_no_internal_error_anypop_partial _ _ _ _ (by decide +kernel) (MG.wf_fromEdges _ _ _)
     (by intro d hd
         simp only [List.mem_singleton] at hd
         subst hd; exact MG.wf_fromEdges _ _ _)
-    a3Two_domainsAgree (by unfold EventVarsPlain; decide) (by decide +kernel) (by decide +kernel)
+    a3Two_domainsAgree (by unfold EventVarsPlain; decide) (by decide +kernel)
 
 /-- `P*(Y = y | Y_x = y)` on `X → Y`, `X ↔ Y` (X=0, Y=1) with the target distribution itself: the outcome `Y` is also a
 condition vertex, and `D*` names `Y` in two worlds -/
@@ -921,14 +975,13 @@ example : validateC a3BothGraph [a3BothDom] a3BothOut a3BothCond = .ok () := by 
 example : OutcomesFound a3BothGraph a3BothOut a3BothCond = true ∧ DstarOneWorld a3BothGraph a3BothOut a3BothCond = false ∧
     OutcomeNotCondition a3BothOut a3BothCond = false ∧ popsPlainCheck [a3BothDom] = true := by decide +kernel
 example : isAnswerWithEvent (ctfTR a3BothGraph [a3BothDom] a3BothOut a3BothCond) = true := by decide +kernel
-/-- `ctfTR_no_internal_error_plain_partial` applies to it -/
+/-- `ctfTR_no_internal_error` applies to it -/
 example : ∀ err, ctfTR a3BothGraph [a3BothDom] a3BothOut a3BothCond ≠ .error err :=
-  ctfTR_no_internal_error_plain_partial _ _ _ _ (by decide +kernel) (MG.wf_fromEdges _ _ _)
+  ctfTR_no_internal_error _ _ _ _ (by decide +kernel) (MG.wf_fromEdges _ _ _)
     (by intro d hd
         simp only [List.mem_singleton] at hd
         subst hd; exact MG.wf_fromEdges _ _ _)
-    a3Both_domainsAgree (by unfold EventVarsPlain; decide) (by decide +kernel)
-    (popsPlain_of_check _ (by decide +kernel))
+    a3Both_domainsAgree (by unfold EventVarsPlain; decide) (popsPlain_of_check _ (by decide +kernel))
 
 /-- **crash-class witness `a3Shared`: `OutcomeNotCondition` is needed for arbitrary distributions** (as the Python:
 `KeyError` of the fifth final check, "at least one variable in the event … is not a variable in the expression", after
